@@ -653,6 +653,9 @@ class StmtMixin(object):
 
   # ------------------------------------------------------------------ loops
   def loop_spec(self, cx, node):
+    direct = getattr(node, '_pyvc_loop_spec', None)
+    if direct is not None:
+      return direct
     fn = self.fnode_of.get(cx.qual)
     spec = cx.spec
     if fn is None or spec is None:
